@@ -119,17 +119,30 @@ def run_case(case):
                 cur, cur_exc = None, ex
             centre_like = name in e1.CENTRE_LIKE
             if centre_like:
-                targets = [("origin", np.zeros(3)), ("123", np.array([1.0, 2.0, 3.0])), ("far", np.asarray(cur, float) + np.array([-20.0, 0.5, 300.0]))]
+                sz = _size(g0)
+                targets = [("origin", np.zeros(3)), ("123", np.array([1.0, 2.0, 3.0]) * sz / 4.0), ("far", np.asarray(cur, float) + np.array([-6.0, 0.5, 8.0]) * sz)]
+                if hasattr(start, "vertices"):
+                    targets += [("malformed-2", (1.5, -2.5)), ("malformed-4", (1.0, 2.0, 3.0, 4.0)), ("malformed-None", None)]
             else:
                 c0 = float(cur) if cur is not None else 1.0
                 targets = [("x%g" % k, c0 * k) for k in POS] + [("zero", 0.0), ("minus-one", -1.0), ("minus-current", -abs(c0) if c0 else -2.0), ("nan", float("nan"))]
             for tag, val in targets:
-                for warm in ((False, True) if tag in ("x2", "x0.001", "origin", "far") else (False,)):
+                for warm in ((False, True) if (tag in ("x2", "far") and not case["prefix"]) or (tag == "x2" and len(case["prefix"]) == 1 and case["prefix"][0].startswith("call:")) else (False,)):
                     obj = copy.deepcopy(start)
                     if warm:
-                        # history read* -> set -> read: every public observable is evaluated on the very
+                        # history read* -> set -> read: every public observable and every query (is_inside,
+                        # form factor, distance_to_surface ... with arguments) is evaluated on the very
                         # object first, so that any memo field is filled before the assignment
                         e1.observe(obj, None)
+                        from .c16 import query_alphabet, run_query
+
+                        for qq in query_alphabet(obj):
+                            if "save" in qq[0] or qq[0].startswith("io:") or "to_hoomd" in qq[0]:
+                                continue
+                            try:
+                                run_query(obj, qq)
+                            except Exception:
+                                pass
                     try:
                         getattr(obj, name)  # the read a user would do to compute the target; may fill a memo
                     except Exception:
@@ -148,10 +161,13 @@ def run_case(case):
                     except Exception as ex:
                         raised = ex
                     bad_target = (not centre_like) and tag in NEG and not (tag == "zero" and name == "radius" and "Sphero" in cls)
+                    malformed = tag.startswith("malformed")
                     if raised is not None:
                         unchanged = e1.exact_state_on(obj, tree) == before  # memo fields may appear
                         if not unchanged:
                             rep.violation("setter", cls, name, "raise-not-atomic", tcase, "%s = %s raised %r but changed the object" % (name, tag, raised))
+                        elif malformed:
+                            rep.ok("malformed-centre-refused-atomically")
                         elif bad_target:
                             if isinstance(raised, ValueError) or (cur_exc is not None and isinstance(raised, type(cur_exc))):
                                 rep.ok("refused:" + type(raised).__name__)
@@ -162,6 +178,9 @@ def run_case(case):
                                 rep.ok("cannot-honour:" + type(raised).__name__)  # e.g. no circumsphere exists
                             else:
                                 rep.violation("setter", cls, name, "positive-target-raised:" + type(raised).__name__, tcase, "%s = %s (%r) raised %r" % (name, tag, val, raised))
+                        continue
+                    if malformed:
+                        rep.skip("malformed-centre-accepted")
                         continue
                     if bad_target:
                         rep.violation("setter", cls, name, "non-positive-target-accepted", tcase, "%s = %r was accepted (geometry now %s)" % (name, val, {k: np.asarray(v).tolist() if np.size(v) < 7 else "..." for k, v in geometry(obj).items()}))
@@ -200,10 +219,39 @@ def run_case(case):
                     diffs = e1.compare_observations(sub1, sub0, 1.0, 1.0)
                     if diffs:
                         rep.violation("setter", cls, name, "descriptor-changed:" + diffs[0][0], tcase, "%s = %s changed the dimensionless observable %s: %s" % (name, tag, diffs[0][0], diffs[0][1]))
-                    else:
-                        rep.ok("accepted:" + ("translate" if centre_like else "scale"))
+                        continue
+                    if warm:
+                        # the resized / moved object must answer every query like a fresh object with the same
+                        # defining data (a memo filled before the assignment must not survive it)
+                        try:
+                            twin = e1.twin_of(obj)
+                        except Exception as ex:
+                            rep.violation("setter", cls, name, "state-not-constructible", tcase, "after %s = %s the defining data no longer construct a %s: %r" % (name, tag, cls, ex))
+                            continue
+                        pr = _probes(obj)
+                        got_o = e1.observe(copy.deepcopy(obj), pr)
+                        want_o = e1.observe(twin, pr)
+                        gv = e1.defining_vertices(obj)
+                        Lq = float(np.linalg.norm(gv.max(0) - gv.min(0))) or float(max(abs(float(v)) for v in geometry(obj).values() if np.isscalar(v)) if not hasattr(obj, "vertices") else 1.0)
+                        Dq = Lq + float(np.linalg.norm(gv.mean(0)))
+                        badc = e1.compare_observations(got_o, want_o, Lq, Dq)
+                        if badc:
+                            rep.violation("setter", cls, name, "stale-after-assignment:" + badc[0][0], tcase, "after reading everything and then %s = %s, %s differs from a fresh object with the same data: %s" % (name, tag, badc[0][0], badc[0][1]))
+                            continue
+                    rep.ok("accepted:" + ("translate" if centre_like else "scale"))
         rep.sample({"start": case, "class": cls, "setters": setters_of(start)})
     return rep
+
+
+def _probes(obj):
+    if hasattr(obj, "vertices"):
+        tw = e1.twin_of(obj)
+        return e1.margin_filter(tw, e1.probes_for(obj))
+    g = geometry(obj)
+    cen = np.asarray(g["centre"], float)
+    ax = np.array([g.get("a", g.get("radius", 1.0)), g.get("b", g.get("radius", 1.0)), g.get("c", g.get("radius", 1.0))], float)
+    u = np.array([[0, 0, 0], [0.31, 0.22, 0.0], [0.9, 0.1, 0.0], [0.55, 0.55, 0.0], [1.2, 0.3, 0.0], [0.1, -1.4, 0.0], [-0.6, 0.62, 0.0], [3.0, 3.0, 0.0], [0.2, 0.1, 0.5], [0.2, 0.1, -1.3]])
+    return {"points": cen + u * ax, "q": np.array([[0.0, 0, 0], [1.0, 0, 0], [0, 0.7, 0], [0.3, -0.2, 0.9]]) / max(ax), "angles": np.linspace(-7.0, 7.0, 29) if hasattr(obj, "distance_to_surface") else None}
 
 
 def _size(g):
